@@ -328,6 +328,15 @@ def _run_case(conns, case) -> dict:
             c2.arraysize = 3
             got = [[r[0], _canon(r[1])] for r in (c2.fetchmany() + c2.fetchall())]
             shapes["fetchmany()+fetchall"] = got
+            # reading cursor.description between fetches must not move (or reset) the read position (C06_describe_pure)
+            c2.execute("select id, c from T order by id")
+            c2.arraysize = 1
+            first = c2.fetchone()
+            _ = c2.description
+            mid = c2.fetchmany(1)
+            _ = c2.description
+            got = [[r[0], _canon(r[1])] for r in (([first] if first is not None else []) + mid + c2.fetchall())]
+            shapes["fetchone, description, fetchmany(1), description, fetchall"] = got
             c2.execute("select id from T order by id")
             shapes["fetch_pandas_all(ids)"] = [int(x) for x in c2.fetch_pandas_all()["ID"].tolist()]
         out["shapes"] = shapes
